@@ -360,6 +360,9 @@ def gen_round(rng, tier, mk):
             rng.shuffle(absent)
             tg += [(c, rng.choice((0, 7, -8))) for c in absent[:rng.randint(0, 2)]]
             rng.shuffle(tg)
+            if rng.random() < 0.3:        # a target listed twice with different values: the LAST assignment wins (np.unique on the reversed rows)
+                q, v = rng.choice(tg)
+                tg.insert(rng.randint(0, len(tg)), (q, rng.choice([x for x in (0, 3, -7) if x != v])))
             steps = [{"t": "subs", "subs": [list(q) for q, _ in tg], "c": [v for _, v in tg]}]
             if rng.random() < 0.3:        # and a second call on the result: delete one of the overwritten entries, restore a deleted one
                 steps.append({"t": "subs", "subs": [list(a["subs"][idx[kd]]), list(a["subs"][idx[0]])], "c": [0, 4]})
@@ -1269,6 +1272,24 @@ def kernel_tie(c, o):
     return ""
 
 
+def setitem_model_tie(c, runs):
+    """wave 5: EVERY run of a request made of subscript assignments is, up to the stored order, what the positional transliteration
+    of sptensor._set_subscripts (Model/C06SetSubs.v set_subscripts = de-duplication + set_subs_AB; C06_set_subscripts_total, _indep) returns on the receiver AS STORED IN
+    THAT RUN (the memory-layout re-runs use the first stored order)"""
+    a = c.args
+    if not a["steps"] or not all(st["t"] == "subs" for st in a["steps"]) or "variants" not in a:
+        return ""
+    perms = [v[0] for v in a["variants"]]
+    perms += [perms[0]] * (len(runs) - len(perms))
+    items = []
+    for r, pa in zip(runs, perms):
+        m = tgen.gsparse(a["shape"], [a["subs"][k] for k in pa], [a["vals"][k] for k in pa])
+        for st in a["steps"]:
+            m = f"(set_subscripts 0%Z zisz {m} {gtargets(list(zip(st['subs'], st['c'])))})"
+        items.append(f"sp_perm_eqb {m} {gsp_obs(r)}")
+    return " && " + " && ".join(items)
+
+
 def check_chain(c, runs):
     from vcheck import Case
     if any(r.get("kind") != "chain" for r in runs):
@@ -1335,7 +1356,7 @@ def check_ext(c, runs):
             e += f" && norm_sq_is {gqs(runs[:1])} {gz(sum(v * v for v in a['vals']))}"
         return e + kernel_tie(c, runs[0])
     if kind == "sparse":
-        return gsame_sparse(runs) + kernel_tie(c, runs[0])
+        return gsame_sparse(runs) + kernel_tie(c, runs[0]) + (setitem_model_tie(c, runs) if c.op == "setitem" else "")
     if kind in ("dense", "array"):
         return "all_same_dense " + glist([tgen.gdense(r["shape"], r["data"]) for r in runs]) + kernel_tie(c, runs[0])
     if kind == "sptenmat":
